@@ -19,9 +19,40 @@ CHECKS = [
            "self-composition), hence thread-count independence; contract-level lemma for grain sequences",
       note=PROOF_NOTE, technique="function contract + DRF obligations + contract-level lemma, z3"),
 ]
+CHECKS += [
+ dict(id="C02", engine="symtrace, cfront+csym", category="other", design_ref="DESIGN.md section 5 C02",
+      text="proved: |k|=|g|=2 sin(theta)/lambda for the python reference (all wedge/chi branches, any omega, omega sign) and for the reference geometry the C "
+           "kernels are proved equal to; g(omega+delta) = Rz(delta)^T g(omega). Bounded stand-ins: detector round trip and both uncompute_g_vectors solutions",
+      note=PROOF_NOTE + "; trig facts T1-T5; g_to_k / compute_xyz_from_tth_eta are only exercised by the bounded stand-ins",
+      technique="symbolic traces + lemmas over the reference geometry (z3); seeded grids for the inverse functions"),
+ dict(id="C04", engine="symtrace", category="other", design_ref="DESIGN.md section 5 C04",
+      text="proved: every copy of the B formula, of cell-from-metric, of the metric tensor / inverse and of U=(B.ubi)^T equals one reference; bounded: the "
+           "algebraic consistency clauses (B^T B = G*, U orthogonal, round trip, NaN voxels) on random cells",
+      note="numpy.linalg.inv = adjugate; gufunc kernels extracted from the module source with the decorator dropped",
+      technique="symbolic execution of the real python functions against a reference spec + run-time checks on a seeded grid"),
+ dict(id="C10", engine="symtrace (matrix mode)", category="proof", design_ref="DESIGN.md section 5 C10",
+      text="finite_strain executed on abstract matrix symbols: polar decomposition, Seth-Hill formulas for 7 values of m, symmetry, lab = R.ref.R^T, "
+           "objectivity, zero strain for a rotation, all decided by z3; map and grain functions traced to the same F and svd expression",
+      note="assumed svd contract, uniqueness of the SPD square root, matrix ring/transpose/inverse axioms",
+      technique="execution of the real code on an uninterpreted matrix sort with algebra axioms; z3 E-matching"),
+ dict(id="C11", engine="cfront+csym", category="other", design_ref="DESIGN.md section 5 C11",
+      text="proved (dense variant + disjoint-set functions): memory safety incl. realloc, forest invariant, labels==0 <=> data<=threshold, labels in 0..n; "
+           "bounded: partition equality of dense/sparse/splat vs BFS on all small masks, chains and random frames",
+      note=PROOF_NOTE + "; partition equality only bounded", technique="function contracts + loop invariants (z3) and exhaustive small-image comparison"),
+ dict(id="C19", engine="symtrace", category="proof", design_ref="DESIGN.md section 5 C19",
+      text="all lab/sample/step/recon conversions proved mutually inverse for symbolic arguments, in-beam dty makes lab y zero, sincos variants, "
+           "dty<->dtyi round trip, mask helpers are the stated compositions. The reconstruction clauses are not claimed (see assumptions)",
+      note="sin^2+cos^2=1; ystep != 0; iradon accuracy/linearity/worker independence not applicable",
+      technique="symbolic execution of the real functions; identities discharged by z3"),
+ dict(id="C20", engine="cfront+csym", category="proof", design_ref="DESIGN.md section 5 C20",
+      text="all functions of closest.c, cdiffraction.c, blobs.c and connectedpixels.c (except bloboverlaps) verified in safety mode: bounds, "
+           "use-after-free, double free, leaks, signed overflow, division by zero, float-to-int range, uninitialised reads, output definedness, "
+           "OpenMP data-race freedom; kernels not yet under contract are listed in the evidence and are not part of the claim",
+      note=PROOF_NOTE + "; well-formed-call preconditions as written in the contracts", technique="safety contracts on the real C, VCs by symbolic execution, z3; ASan/UBSan replay"),
+]
 _todo = "check under construction in this session (see DESIGN.md section 5 for the planned contracts)"
 NOT_APPLICABLE = [
  dict(property_id="C08", reason="soundness+completeness of a heuristic search over a whole peak set and mutable indexer state: no per-function contract expresses 'finds every grain'; kernels covered by C05/C06/C07"),
  dict(property_id="C09", reason="convergence of a Nelder-Mead optimiser to a tolerance is not a partial-correctness property of any function; pieces covered by C01/C06/C07"),
 ] + [dict(property_id=i, reason=_todo) for i in
-     ["C02", "C03", "C04", "C05", "C10", "C11", "C12", "C13", "C14", "C15", "C16", "C17", "C18", "C19", "C20"]]
+     ["C03", "C05", "C12", "C13", "C14", "C15", "C16", "C17", "C18"]]
